@@ -213,6 +213,8 @@ func computeMaxMinPriorityDiff(vals *ValidatorSet) int64 {
 	}
 	max := int64(math.MaxInt64)
 	min := int64(math.MinInt64)
+	// the running maximum must start at the smallest value and the running minimum at the largest
+	max, min = min, max
 	for _, v := range vals.Validators {
 		if v.ProposerPriority < min {
 			min = v.ProposerPriority
